@@ -1694,7 +1694,7 @@ const std::set<std::string>& contextNames() {
 struct C19Result { bool fail = false; std::string stage, what, where, kwName, t1; size_t kwIndex = 0; };
 
 // features of a keyword that are known to matter for the printer; named in the FAIL key
-std::string causeTag(const Deck& sub) {
+std::string causeTag(const Deck& sub, const std::string& where = std::string()) {
     if (sub.size() == 0) return "";
     const DeckKeyword& kw = sub[sub.size() - 1];
     const ParserKeyword* pk = nullptr;
@@ -1717,7 +1717,7 @@ std::string causeTag(const Deck& sub) {
         }
         return "";
     }
-    bool tagA = false, tagB = false;
+    bool tagA = false, tagB = false, tagC = false;
     size_t schemaIdx = 0;
     for (size_t ri = 0; ri < kw.size(); ++ri) {
         const DeckRecord& r = kw.getRecord(ri);
@@ -1730,11 +1730,22 @@ std::string causeTag(const Deck& sub) {
         if (pk && std::distance(pk->begin(), pk->end()) > 0) {
             try { const ParserRecord& pr = pk->getRecord(schemaIdx); if (pr.size() == r.size()) isAll = pr.get(pr.size() - 1).sizeType() == ParserItem::item_size::ALL; } catch (...) {}
         }
-        if (isAll && last.data_size() > 0 && last.defaultApplied(last.data_size() - 1)) tagB = true;
+        // an item of size ALL ending in defaulted values.  Since 14c7867b0 the writer keeps them when the
+        // item holds several values (`data_size() > 1`: flush_defaults) - that case must pass and stays
+        // armed under its own key; an item of size ALL holding exactly ONE value, defaulted, behind an
+        // explicit value is still printed without its `1*` (recorded finding, own key).
+        if (isAll && last.data_size() >= 2 && last.defaultApplied(last.data_size() - 1)) tagB = true;
+        if (isAll && last.data_size() == 1 && last.defaultApplied(0) && any) tagC = true;
         ++schemaIdx;
     }
     if (tagA) return ".alldefault_record";
-    if (tagB) return ".all_item_trailing_default";
+    if (tagB || tagC) {
+        // a keyword can hold records of both kinds: the failing item tells (a = values written, b = read back)
+        const std::string lost = " a=1 b=0";
+        const bool lostTheOnlyValue = where.size() >= lost.size() && where.compare(where.size() - lost.size(), lost.size(), lost) == 0;
+        if (tagC && (lostTheOnlyValue || !tagB)) return ".all_item_single_trailing_default";
+        return ".all_item_trailing_default";
+    }
     return "";
 }
 
@@ -1792,7 +1803,7 @@ void c19Deck(Reporter& rep, const Env& env, const std::string& src, const std::s
             const std::string nm = d[i].name();
             if (!perKeyword && i > 4000) break;
             C19Result r; std::string tag;
-            try { Deck s = subDeck(d, i); r = c19Once(s); if (r.fail) tag = causeTag(s); } catch (...) { r.fail = true; r.stage = "harness"; r.what = "subdeck_exception"; }
+            try { Deck s = subDeck(d, i); r = c19Once(s); if (r.fail) tag = causeTag(s, r.where); } catch (...) { r.fail = true; r.stage = "harness"; r.what = "subdeck_exception"; }
             const std::string cls = classOfName(nm);
             if (perKeyword) rep.count("c19.keyword." + cls);
             if (r.fail) { c19Report(rep, env, src, id + "#kw" + std::to_string(i), cls, nm, r, "", tag); attributed = true; }
@@ -1802,7 +1813,7 @@ void c19Deck(Reporter& rep, const Env& env, const std::string& src, const std::s
     if (whole.fail && !attributed) {
         std::string tag;
         if (!whole.kwName.empty() && whole.kwIndex < d.size()) {
-            try { Deck two; size_t pi = whole.kwIndex; while (pi > 0 && d[pi - 1].size() == 0) --pi; if (pi > 0) two.addKeyword(d[pi - 1]); two.addKeyword(d[whole.kwIndex]); tag = causeTag(two); } catch (...) {}
+            try { Deck two; size_t pi = whole.kwIndex; while (pi > 0 && d[pi - 1].size() == 0) --pi; if (pi > 0) two.addKeyword(d[pi - 1]); two.addKeyword(d[whole.kwIndex]); tag = causeTag(two, whole.where); } catch (...) {}
         }
         c19Report(rep, env, src, id, whole.kwName.empty() ? "DECK" : classOfName(whole.kwName), whole.kwName.empty() ? "-" : whole.kwName, whole, origText, tag);
     }
@@ -1811,6 +1822,23 @@ void c19Deck(Reporter& rep, const Env& env, const std::string& src, const std::s
 }
 
 void prop19(Reporter& rep, Env& env) {
+    // fixed decks: the two faces of "an item of size ALL ending in defaulted values", always exercised.
+    // Several values (repaired by 14c7867b0, key C19.all_item_trailing_default must not appear) and exactly
+    // one value (recorded finding C19.all_item_single_trailing_default), plus the TITLE leak (452487d0e).
+    {
+        const std::vector<std::pair<std::string, std::string>> fixed = {
+            {"all_item_multi_wlist", "WLIST\n '*L' NEW W1 1* /\n '*M' NEW 3* /\n/\n"},
+            {"all_item_multi_summary", "WOPR\n 'A' 2* /\n"},
+            {"all_item_multi_tstep", "TSTEP\n 1 2 2* /\n"},
+            {"all_item_single_wlist", "WLIST\n '*L' NEW 1* /\n/\n"},
+            {"title_after_pending_default", "EQLDIMS\n 2 /\nTITLE\n abc\n"}};
+        for (const auto& f : fixed) {
+            Outcome oa = parseText(f.second);
+            rep.count("fixed.decks");
+            if (!oa.ok) { rep.count("fixed.unparseable"); continue; }
+            c19Deck(rep, env, "fixed", f.first, *oa.deck, f.second, true);
+        }
+    }
     const int nGen = env.thorough ? 8000 : 800;
     for (int c = 0; c < nGen; ++c) {
         if (!env.timeLeft(0.6)) { rep.count("generated.stopped_by_budget"); break; }
